@@ -183,7 +183,11 @@ func init() {
 					Threads: [][]Step{{zl(1, 1, 1)}, {C(L(2, 1, 2, 0, 10, 0, 0))}}, Unlock: ul},
 				&EngSpec{Name: "long-expiry-two-keys-one-slot", Cfg: cfg1, Fine: true,
 					Threads: [][]Step{{zl(1, 1, 1), C(U(2, 1, 1))}, {zl(3, 2, 2), C(L(4, 1, 3, 0, 10, 0, 0))}}, Unlock: ul})
-			return &SchedPlan{Specs: specs, Monitors: []MonitorFactory{MonitorC01}, Oracles: []Oracle{OracleC01Quiescent},
+			// the first requests for a database that does not exist yet arrive on two connections at once
+			specs = append(specs,
+				&EngSpec{Name: "first-use-of-a-database", Cfg: cfg1, Fine: true,
+					Threads: [][]Step{{C(dbc(L(1, 1, 1, 0, 10, 0, 0), 3))}, {C(dbc(L(2, 1, 2, 0, 10, 0, 0), 3))}}, Unlock: []hapi.Cmd{dbc(U(8, 1, 1), 3), dbc(U(9, 1, 2), 3)}})
+			return &SchedPlan{Specs: specs, Monitors: []MonitorFactory{MonitorC01}, Oracles: []Oracle{OracleC01Quiescent, OracleC01Replies},
 				Bound: func(s *EngSpec, q bool) int {
 					timed := false
 					for _, t := range s.Threads {
@@ -194,7 +198,7 @@ func init() {
 						}
 					}
 					if q {
-						if timed || len(s.Threads) > 2 || strings.HasPrefix(s.Name, "long-expiry") {
+						if timed || len(s.Threads) > 2 || strings.HasPrefix(s.Name, "long-expiry") || s.Name == "first-use-of-a-database" {
 							return 2
 						}
 						return 3
